@@ -186,6 +186,23 @@ Theorem pwrap_wraps_each : forall (rnd : oracle) k m q lo hi l e, den rnd (S k) 
   exists l', den rnd (S (S k)) m (Pwrap q (PVal lo) (PVal hi)) = (l', e) /\
              map Some l' = map (fun v => narop NWrap v lo hi) l.
 Proof. exact pwrap_l. Qed.
+(* Pwrap with at least one float bound: whatever the int/float type of each element, every output lies in
+   [lo, hi) -- this pins the regenerated bi.wrap kernel for the type mixes (the all-float case is C15's) *)
+Theorem pwrap_within_bounds : forall (rnd : oracle) k m q b c l e, den rnd (S k) Str q = (l, e) -> (length l < k)%nat ->
+  Forall (fun v => exists a, v = VN a /\ is_ok a = true) l ->
+  is_ok b = true -> is_ok c = true -> andb (is_int b) (is_int c) = false -> (toQ b < toQ c)%Q ->
+  exists l', den rnd (S (S k)) m (Pwrap q (PVal (VN b)) (PVal (VN c))) = (l', e) /\ length l' = length l /\
+             Forall (fun v => exists r, v = VN r /\ (toQ b <= toQ r)%Q /\ (toQ r < toQ c)%Q) l'.
+Proof. exact pwrap_bounds_l. Qed.
+(* the .wrap() / .fold() operators element by element, any non-all-int mix *)
+Theorem wrap_operator_within_bounds : forall a b c, is_ok a = true -> is_ok b = true -> is_ok c = true ->
+  andb (is_int a) (andb (is_int b) (is_int c)) = false -> (toQ b < toQ c)%Q ->
+  exists r, narop NWrap (VN a) (VN b) (VN c) = Some (VN r) /\ (toQ b <= toQ r)%Q /\ (toQ r < toQ c)%Q.
+Proof. exact narop_wrap_mixed. Qed.
+Theorem fold_operator_within_bounds : forall a b c, is_ok a = true -> is_ok b = true -> is_ok c = true ->
+  andb (is_int a) (andb (is_int b) (is_int c)) = false -> (toQ b < toQ c)%Q ->
+  exists r, narop NFold (VN a) (VN b) (VN c) = Some (VN r) /\ (toQ b <= toQ r)%Q /\ (toQ r <= toQ c)%Q.
+Proof. exact narop_fold_mixed. Qed.
 Theorem punop_maps : forall (rnd : oracle) k m o q l e, den rnd k Str q = (l, e) ->
   (forall v, In v l -> unop o v <> None) ->
   exists l', den rnd (S k) m (Punop o q) = (l', e) /\ map Some l' = map (unop o) l.
@@ -301,8 +318,16 @@ Example ex_wrand : den (mk_rnd tblw) 30 Str (PseedWrand (Pseq [i 7] (Fin 1) 0) [
   (map (fun z => VN (I z)) [30; 10]%Z, EStop).
 Proof. vm_compute. reflexivity. Qed.
 
+Example ex_wrap_mix :
+  map (fun v => match v with VN n => canon n | _ => (9, 9, 9)%Z end)
+      (fst (den no_rnd 30 Str (Pwrap (Pseries (I (-4)) (i 1) (Fin 13)) (PVal (VN (F 0))) (PVal (VN (F (5 # 2))))))) =
+  [(1, 1, 1); (1, 2, 1); (1, 1, 2); (1, 3, 2); (0, 0, 1); (0, 1, 1); (0, 2, 1); (1, 1, 2); (1, 3, 2); (1, 0, 1);
+   (1, 1, 1); (1, 2, 1); (1, 1, 2)]%Z.
+Proof. vm_compute. reflexivity. Qed.
+
 Print Assumptions run_eq_den.
 Print Assumptions pconst_sums_exactly.
 Print Assumptions seeded_same_sequence.
 Print Assumptions pxrand_never_repeats.
 Print Assumptions ptuple_rows.
+Print Assumptions pwrap_within_bounds.
